@@ -168,9 +168,10 @@ Lemma escape_oct1 a rest p t : kvalid (KOct [a]) = true -> kfollow (KOct [a]) re
 Proof.
   intros Hv Hf Hat. cbn [kvalid] in Hv. cbn [kfollow] in Hf.
   at1 Hat as A1. pose proof (At_sub _ _ [a] rest A1) as Hsub. cbn [length] in Hsub.
-  assert (Hfin : forall cs, cs = calls1 (52%nat, sub buf (S p, S (S p))) ++ [] -> cs = [(CAddOctalCharacter, [a])]).
-  { intros cs ->. replace (S (S p)) with (S p + 1)%nat by lia.
-    cbn [app calls1 nth pegpeg_calls map fst snd arg_of]. rewrite Hsub. reflexivity. }
+  assert (Hfin : forall k, nth k pegpeg_calls [] = [(CAddOctalCharacter, AText)] ->
+                 calls1 (k, sub buf (S p, S (S p))) ++ [] = [(CAddOctalCharacter, [a])]).
+  { intros k Hk. replace (S (S p)) with (S p + 1)%nat by lia. unfold calls1. cbn [fst snd]. rewrite Hk.
+    cbn [map fst snd arg_of app]. rewrite Hsub. reflexivity. }
   destruct rest as [|c r].
   - oct_unfold. destruct (Z.eq_dec a 48) as [->|Na]; [|destruct (Z_le_gt_dec a 51)].
     all: eapply C_eq; [crun|lia|apply Hfin; reflexivity|f_equal; lia].
